@@ -301,6 +301,7 @@ def _setitem(x, k):
 
 
 class Handled(Sub):
+    fuzz_runs = 30000
     name = "handled"
     n = {"quick": 4000, "thorough": 100000}
 
